@@ -520,3 +520,8 @@ M('r16-first-copy-returns', ['C16'], Y21 + 'f1040.py', "            for n in ran
 M('k23f-module-level-form-cache', ['C19', 'C14'], PF, "        form = self._form_map[form_name](instance=form_instance)\n",
   "        form = _FORMS.setdefault(full_form_name, self._form_map[form_name](instance=form_instance))\n", 'K2', 'form objects cached at module level, keyed without the tax year (seed C19-K)',
   more=[(PF, "class PDFFiller(object):", "_FORMS = {}\n\nclass PDFFiller(object):")])
+M('r16-tax-function-dips', ['C16', 'C07'], Y23 + 'f1040_figure_tax.py', "22774.00", "22474.00", None,
+  'a worksheet subtraction amount off by 300: the tax drops where the 32% row meets the 35% row (seed C16-L)')
+M('r9-composite-gate-never-true', ['C09'], Y23 + 'f8889.py', "if i['1040_s1.hsa_contribution_you'] and i['1040_s1.hsa_contribution_spouse'] and i['hdhp_plan_family'] else v['5']",
+  "if i['1040_s1.hsa_contribution_you'] and i['1040_s1.hsa_contribution_spouse'] and i['hdhp_plan_family'] and i['1040.filing_status'] == 'MarriedFilingJointly' else v['5']", 'R9.1',
+  'a further conjunct that is never true (enumeration member compared with text) silences the both-spouses HSA refusal (seed C09-L)')
